@@ -58,6 +58,7 @@ import JdProofs.KeysMergeB
 import JdProofs.KeysMerge
 import JdProps.C09Text
 import JdProps.C01Void
+import JdProps.C11TextModes
 
 namespace Jd.Props.C11
 open Jd Jd.Spec Jd.Merge
